@@ -83,6 +83,8 @@ func runLockDomain(c *Ctx, cfg, tname, rulePrefix string, minFns int) *lockDomai
 func checkC10(c *Ctx) {
 	c.Rule("C10-R1", "every access to a guarded field / Tty write / draw buffer / transformer state happens with the screen mutex held (report names the unlocked root or call site)")
 	c.Rule("C10-R3", "no method returns with the mutex held, none acquires it twice")
+	c.Rule("C10-R5", "what GetContent hands out is never written again: combining runes are stored as a fresh copy and no function writes through a stored slice (readers hold the slice outside the lock)")
+	c.Expect("C10-R5", 2)
 	c.Rule("C10-R4", "memory handed from the input goroutine to the main loop over a channel is not written again by the sender (a fresh array per chunk): the lock does not cover it")
 	c.Expect("C10-R4", 1)
 	c.Expect("C10-R1", 150)
@@ -95,6 +97,7 @@ func checkC10(c *Ctx) {
 	runLockDomain(c, "linux", "baseScreen", "C10", 10)
 	if p := c.P("linux"); p != nil && p.Tcell != nil {
 		checkChunkOwnership(c, p, "C10-R4")
+		c.asRule("C08-R4", "C10-R5", func() { c08Alias(c, p, cbMethods(p)) })
 	}
 	if c.Tier == "thorough" {
 		for _, cfg := range []string{"darwin", "freebsd"} {
